@@ -1,5 +1,6 @@
 """Expression evaluation (program mode and spec mode)."""
 import ast
+import os
 from fractions import Fraction
 
 import z3
@@ -37,6 +38,10 @@ class ExprMixin:
 
     def kill(self, st, why=""):
         st.dead = True
+        if os.environ.get("ESVC_DEBUG_KILL"):
+            import traceback
+            print("KILL:", why, "path=", "/".join(st.path[-4:]))
+            traceback.print_stack(limit=6)
         return POISON
 
     def ev1(self, node, st, fr):
@@ -115,6 +120,20 @@ class ExprMixin:
             g = self.module_global(fr.outer_module, name)
             if g is not UNDEF:
                 return g
+        fnode = getattr(fr.func, "node", None) if getattr(fr, "func", None) is not None else None
+        if fnode is not None and not fr.spec:
+            # a local of the function (assigned somewhere in its body) read on a path that never assigned it:
+            # Python raises UnboundLocalError - a definite-assignment obligation, not a limit of the generator
+            assigned = getattr(fnode, "_assigned_names", None)
+            if assigned is None:
+                assigned = set()
+                for sub in ast.walk(fnode):
+                    if isinstance(sub, ast.Name) and isinstance(sub.ctx, (ast.Store, ast.Del)):
+                        assigned.add(sub.id)
+                fnode._assigned_names = assigned
+            if name in assigned:
+                self.oblige(st, False, "safety", "local-assigned-before-use:%s" % name, node, fr)
+                return self.kill(st, "use of unassigned local " + name)
         raise Unsupported("unknown name %s" % name, node)
 
     BUILTINS = {"len", "range", "int", "float", "abs", "min", "max", "isinstance", "enumerate", "zip", "list", "tuple",
@@ -229,7 +248,19 @@ class ExprMixin:
         if isinstance(node, ast.Assign):
             # module-level constant
             try:
-                return ast.literal_eval(node.value)
+                val = ast.literal_eval(node.value)
+                if isinstance(val, dict):
+                    # a table filled by top-level subscript assignments with literal keys and values
+                    #   T = {};  T["k"] = (1, 0);  ...
+                    # (entries added by other means, e.g. in a loop, are not seen: a lookup of such a key is unsupported)
+                    for st_ in self.idx.module(mod).body:
+                        if isinstance(st_, ast.Assign) and len(st_.targets) == 1 and isinstance(st_.targets[0], ast.Subscript) \
+                                and isinstance(st_.targets[0].value, ast.Name) and st_.targets[0].value.id == name:
+                            try:
+                                val[ast.literal_eval(st_.targets[0].slice)] = ast.literal_eval(st_.value)
+                            except Exception:
+                                pass
+                return val
             except Exception:
                 pass
             if isinstance(node.value, ast.Name):
@@ -307,6 +338,8 @@ class ExprMixin:
     def scalar_binop(self, opn, a, b, st, fr, node=None):
         ka, kb = kind_of(a), kind_of(b)
         if ka == "str" or kb == "str":
+            if opn == "Add" and isinstance(a, str) and isinstance(b, str):
+                return a + b
             if opn == "Add" and ka == "str" and kb == "str":
                 return z3.Concat(to_z3(a), to_z3(b))
             if opn == "Mod":
@@ -1064,6 +1097,25 @@ class ExprMixin:
     def concrete_iter(self, it, st, node=None):
         if isinstance(it, RangeV):
             lo, hi, step = (as_const(x) if is_sym(x) else x for x in (it.lo, it.hi, it.step))
+            if None in (lo, hi, step):
+                # a bound that the path condition pins to a literal (e.g. a precondition  shape0(a) == 3)
+                def pinned(x):
+                    if not is_sym(x):
+                        return x
+                    facts = list(st.pc)
+                    while facts:
+                        f = facts.pop()
+                        if z3.is_and(f):
+                            facts.extend(f.children())
+                            continue
+                        if z3.is_eq(f):
+                            a, b = f.arg(0), f.arg(1)
+                            if a.eq(x) and z3.is_int_value(b):
+                                return b.as_long()
+                            if b.eq(x) and z3.is_int_value(a):
+                                return a.as_long()
+                    return None
+                lo, hi, step = pinned(it.lo), pinned(it.hi), pinned(it.step)
             if None in (lo, hi, step):
                 raise Unsupported("symbolic range in concrete iteration", node)
             return list(range(lo, hi, step))
